@@ -347,7 +347,8 @@ impl RtpsWriterProxy {
     for (&sn, _what) in self.changes.range((Included(&self.ack_base), Unbounded)) {
       if sn == test_sn {
         // test_sn found from changes, ack_base can be set to test_sn + 1
-        test_sn = test_sn + SequenceNumber::new(1);
+        // (saturating: there is nothing beyond the numeric maximum)
+        test_sn = SequenceNumber::new(i64::from(test_sn).saturating_add(1));
       } else {
         // test_sn not found from changes, stop here
         break;
